@@ -1,6 +1,7 @@
 package props
 
 import (
+	"bytes"
 	"encoding/json"
 	"fmt"
 	"go/token"
@@ -8,6 +9,8 @@ import (
 	"strings"
 
 	"github.com/dave/dst"
+	"github.com/dave/dst/decorator"
+	"github.com/dave/dst/decorator/resolver/simple"
 
 	"verif/core"
 	"verif/explore"
@@ -40,7 +43,7 @@ func init() {
 		ID:    "C19",
 		Level: "model_checking",
 		Rule: "explicit-state BFS over all histories of Append/Prepend/Replace x {no args, 1, 2 strings, slices with spare capacity, nil slice} and Clear, from 3 initial lists (nil, empty, spare capacity), " +
-			"depth 7 (quick) / 10 (thorough); after every step: All() == []string model, caller backing arrays bit-identical, later caller mutation invisible, printed comments == All(); " +
+			"depth 7 (quick) / 10 (thorough); after every step: All() == []string model, caller backing arrays bit-identical, later caller mutation invisible, printed comments == All() (as a statement's Start decoration and as the Start/X/End decorations of a package-qualified identifier under import management); " +
 			"state key = (contents relabelled by first occurrence, spare capacity); non-trivial = state with >=2 elements",
 		Assumptions: []string{"methods do not inspect string values (relabelling is a sound canonicalisation)"},
 		Units: func(tier string) []string {
@@ -209,8 +212,51 @@ func c19Methods0(op int) string {
 	return c19Methods[op/c19Shapes]
 }
 
-// c19Render attaches the list to a statement's Start point and returns the comments printed.
+// c19Render attaches the list to a statement's Start point and returns the comments printed; it also
+// renders the same list at the Start, X and End points of a package-qualified identifier under import
+// management (a second rendering path: the identifier is expanded to a selector) and requires the same.
 func c19Render(d dst.Decorations) ([]string, error) {
+	plain, err := c19RenderPlain(d)
+	if err != nil {
+		return nil, err
+	}
+	for _, point := range []string{"Start", "X", "End"} {
+		id := &dst.Ident{Name: "Sprint", Path: "fmt"}
+		switch point {
+		case "Start":
+			id.Decs.Start = d
+		case "X":
+			id.Decs.X = d
+		case "End":
+			id.Decs.End = d
+		}
+		f := &dst.File{Name: dst.NewIdent("a"), Decls: []dst.Decl{&dst.GenDecl{Tok: token.VAR, Specs: []dst.Spec{&dst.ValueSpec{
+			Names: []*dst.Ident{dst.NewIdent("v")}, Values: []dst.Expr{&dst.CallExpr{Fun: id}}}}}}}
+		var buf bytes.Buffer
+		var rerr error
+		if p := guard(func() {
+			rerr = decorator.NewRestorerWithImports("example.com/local", simple.New(map[string]string{"fmt": "fmt"})).Fprint(&buf, f)
+		}); p != "" {
+			return nil, fmt.Errorf("import-managed print panicked: %s", p)
+		}
+		if rerr != nil {
+			return nil, rerr
+		}
+		var cs []string
+		toks, _ := gen.Tokens(buf.String(), true)
+		for _, t := range toks {
+			if t.Tok == token.COMMENT {
+				cs = append(cs, t.Lit)
+			}
+		}
+		if strings.Join(cs, "\x00") != strings.Join(plain, "\x00") {
+			return cs, fmt.Errorf("list at %s of a package-qualified identifier renders as %q", point, cs)
+		}
+	}
+	return plain, nil
+}
+
+func c19RenderPlain(d dst.Decorations) ([]string, error) {
 	call := &dst.ExprStmt{X: &dst.CallExpr{Fun: dst.NewIdent("x")}}
 	call.Decs.Start = d
 	f := &dst.File{Name: dst.NewIdent("a"), Decls: []dst.Decl{&dst.FuncDecl{Name: dst.NewIdent("f"), Type: &dst.FuncType{Params: &dst.FieldList{}}, Body: &dst.BlockStmt{List: []dst.Stmt{call}}}}}
